@@ -27,7 +27,7 @@ UNITS += _take('C07', ['ready', 'subscribe', 'unlock_rel', 'unlock_del'])
 _PERM = {'cocls::reusable_storage._ptr': 'CV_PERM_RS_BLOCK', 'cocls::reusable_storage._capacity': 'CV_PERM_RS_BLOCK'}
 UNITS += _take('C19', ['mt_alloc_tm_flag', 'mt_alloc_tm_grown', 'mt_dealloc_tm'], perms=_PERM)
 # lock discipline of the lock-based objects (guarded members only while the mutex is held; accessors included)
-UNITS += _take('C16', ['q_position', 'q_push', 'q_close', 'q_advance', 'q_subscribe', 'q_leave', 'q_kick'])
+UNITS += _take('C16', ['q_position', 'q_push', 'q_close', 'q_advance', 'q_subscribe', 'q_leave', 'q_kick', 'push_lk', 'push_lk_bounded'])
 UNITS += _take('C11', ['cur_await_ready', 'is_stopped', 'any_enqueued', 'enqueue', 'worker', 'stop'])
 UNITS += _take('C09', ['qi_push', 'qi_pop', 'qi_unblock_pop', 'qi_size', 'qi_empty', 'qv_push', 'qv_pop'])
 UNITS += _take('C10', ['lq_push', 'lq_pop', 'lq_unblock_push', 'lq_size', 'lq_empty'])
